@@ -350,7 +350,8 @@ func infixAtom(n *Node) bool {
 	case KInt:
 		return n.I >= 0
 	case KVar:
-		return !infixOps[n.Name]
+		// a variable, not the name of a builtin (not, and, or .. are operator words inside { })
+		return !PrimNames[n.Name]
 	}
 	return false
 }
